@@ -341,6 +341,9 @@ def d2_grid(ctx, m, fold, g, g5):
     if len(f.args.args) != 1:
         ctx.unrec(rule, 'dirac.py:Grid_gamma', 'expected one parameter')
         return
+    decos = [unparse(d_) for d_ in f.decorator_list]
+    ctx.check(rule, 'dirac.py:Grid_gamma#fresh-arrays', not any('cache' in d_ for d_ in decos), 'every call builds its result (no memoisation of mutable arrays)',
+              'Grid_gamma is memoised (%s): all callers of one tag share one mutable array, an in-place operation on a returned matrix changes what every later call returns' % decos, m.loc(f))
     it = GridInterp(m, fold, f)
     n = 0
     inplace = {}
@@ -555,6 +558,14 @@ def d5_reexports(ctx):
         ctx.check(rule, 'special.py:__all__#%s' % nm, src == 'autograd.scipy.special.' + nm, 'imported from autograd.scipy.special (analytic derivative registered there)',
                   '%s is re-exported from %s: no analytic derivative is propagated' % (nm, src))
     ctx.floor('re-exported special functions', n, 25)
+    # the analytic derivatives of the re-exports are those registered by autograd: a local defvjp / defjvp for anything but the
+    # primitives defined in this module replaces them
+    own = {q for q, _ in m.functions() if '.' not in q}
+    regs = [c for c in ast.walk(m.tree) if isinstance(c, ast.Call) and call_name(c) in ('defvjp', 'defjvp', 'defvjp_argnums', 'defvjp_argnum') and c.args]
+    for c in regs:
+        tgt = unparse(c.args[0])
+        ctx.check(rule, 'special.py:defvjp(%s)#own-primitive' % tgt, tgt in own, 'derivative rules are registered for the primitives defined here only',
+                  'a derivative rule is registered for the re-exported function `%s`: it replaces the analytic derivative that autograd ships (and is checked nowhere)' % tgt, m.loc(c))
 
 
 def run(ctx):
